@@ -293,6 +293,12 @@ class AliasValueSource(H.ValueSource):
       if isinstance(node, pg.List):
         key = rng.randrange(len(node) + 1)
       cands, equal = [], []
+      if rng.random() < 0.3:
+        # The child that the written position holds right now (a write of a
+        # node onto its own position; inside a batch the position may move).
+        own = node.sym_getattr(key) if node.sym_hasattr(key) else None
+        if isinstance(own, pg.Symbolic) and not isinstance(own, pg.Ref):
+          return ['node', self.target[0], keys + [key]]
       for ridx, root in enumerate(self.forest or []):
         if ridx == self.target[0] or not isinstance(root, pg.Symbolic):
           continue
